@@ -101,7 +101,9 @@ def add_child_contract(c, typed, pos_fn=None, target_fn=None, kind_fn=None, has_
     c.raises("ValueError", when=bad_before, ensures=lambda x: And(obs_unchanged(x), wf1(x)), props=("C13", "C04"))
     c.raises("UniqueConstraintError", when=lambda x: And(Not(bad_before(x)), Not(bad_nid(x)), Or(clash(x), id_conflict(x))), ensures=lambda x: And(obs_unchanged_but_fresh(x), wf1(x)), props=("C03", "C13"))
     c.may_raise("AssertionError", ensures=lambda x: And(obs_unchanged_but_fresh(x), wf1(x)), props=("C13",), name="node_id refused")
-    c.may_raise("Exception", ensures=lambda x: And(obs_unchanged_but_fresh(x), wf1(x)), props=("C13",), name="calc_data_id callback raises")
+    # only the data path calls the user's calc_data_id callback (a node argument brings its id along)
+    c.may_raise("Exception", ensures=lambda x: And(obs_unchanged_but_fresh(x), wf1(x)), props=("C13",), name="calc_data_id callback raises",
+                when=lambda x: z3.BoolVal(not is_node_child(x) and x.a.tag("data_id") == "none"))
 
     def post(x):
         h0, h, s, n = x.h0, x.h, target_fn(x, x.h0), x.r
@@ -744,3 +746,34 @@ def _(c):
     c.may_raise("UniqueConstraintError", ensures=unchanged, props=("C03", "C13"))
     c.may_raise("Exception", ensures=unchanged, props=("C13",), name="calc_data_id callback raises")
     c.ensures("only data / data_id of the node changed; tree well-formed (index exact)", lambda x: And(wf1(x), fields_same_except(x, tuple(f for f in NODE_FIELDS if f not in ("_data", "_data_id")) + TREE_FIELDS, []), other_childlists_same(x, x.T)))
+
+
+# ------------------------------------------------------------------ copy_to(add_self=True): instance of add_child(node)
+@contract(NQ + "copy_to", props=("C03", "C07", "C13"))
+def _(c):
+    c.param("self", "node").param("target", "node").param("add_self", "true").param("before", "none", "bool", "int", "node").param("deep", "false")
+    c.families = ("plain",)
+    c.requires("wf of the source's tree; self is a member", lambda x: And(wf0(x), self_member(x)))
+    c.requires("the target belongs to a well-formed tree", lambda x: And(wf(x.h0, x.h0._tree(x.a.target)), x.h0.inP(x.h0._tree(x.a.target), x.a.target)))
+    c.requires("an int position is within 0..len (documented-valid)", lambda x: And(0 <= x.a.before, x.a.before <= x.h0.clen(x.a.target)) if x.a.tag("before") == "int" else True)
+    c.requires("a `before` node belongs to the target's tree", lambda x: x.h0.mem(x.h0._tree(x.a.target), x.a.before) if x.a.tag("before") == "ref" else True)
+    c.result_tag = "node"
+    c.modifies("_data", "_parent", "_tree", "_children", "_data_id", "_node_id", "_meta", "_kind", "ddom", "dref", "dlst", "dcard", "llen", "litem", "lalloc", "alloc", "cpos", "rank", "pos")
+    Tt = lambda x: x.h0._tree(x.a.target)  # noqa: E731
+    unchanged = lambda x: And(obs_unchanged_but_fresh(x), wf(x.h, Tt(x)))  # noqa: E731
+    c.raises("ValueError", when=lambda x: (x.h0._parent(x.a.before) != x.a.target) if x.a.tag("before") == "ref" else z3.BoolVal(False), ensures=unchanged, props=("C13",))
+    c.raises("UniqueConstraintError", when=lambda x: And((x.h0._parent(x.a.before) == x.a.target) if x.a.tag("before") == "ref" else True,
+                                                          ex_int(0, x.h0.clen(x.a.target), lambda i: x.h0._data_id(x.h0.child(x.a.target, i)) == x.h0._data_id(x.a.self))), ensures=unchanged, props=("C03", "C13"))
+    c.may_raise("AssertionError", ensures=unchanged, props=("C13",), name="node id refused")
+
+    def post(x):
+        h0, h, s, t, n = x.h0, x.h, x.a.self, x.a.target, x.r
+        tg = x.a.tag("before")
+        ln = h0.clen(t)
+        idx = ln if tg == "none" else (If(x.a.before, 0, ln) if tg == "bool" else (x.a.before if tg == "int" else h0.pos(x.a.before)))
+        return And(wf(h, Tt(x)), n != NONE, Not(h0.alloc(n)), h.mem(Tt(x), n), inserted(h0, h, t, idx, n),
+                   h._data(n) == h0._data(s), h._data_id(n) == h0._data_id(s), h._parent(n) == t, h._children(n) == LNONE,
+                   fields_same_except(x, tuple(f for f in NODE_FIELDS if f != "_children") + TREE_FIELDS, [n]),
+                   other_childlists_same(x, Tt(x), t))
+
+    c.ensures("a fresh node with the source's data object and data_id at the documented position of the target; everything else (incl. the source) unchanged", post)
